@@ -327,6 +327,23 @@ pub fn run_entry(ep: usize, x: &[u8]) {
             let _ = n.read(&mut buf);
         }
         _ => {
+            // the non-default SEIPDv1 read mode, with every kind of secret
+            if let Ok(m) = Message::from_bytes(x) {
+                if m.is_encrypted() {
+                    let pw = Password::from("pw-one");
+                    let ring = TheRing {
+                        secret_keys: vec![&key],
+                        message_password: vec![&pw],
+                        session_keys: vec![PlainSessionKey::V3_4 { sym_alg: SymmetricKeyAlgorithm::AES128, key: vec![1u8; 16].into() }],
+                        decrypt_options: DecryptionOptions::new().enable_legacy().set_seipdv1_read_mode(pgp::types::Seipdv1ReadMode::Streaming),
+                        ..Default::default()
+                    };
+                    if let Ok((m2, _)) = m.decrypt_the_ring(ring, false) {
+                        mark(1);
+                        drain_message(m2, 1);
+                    }
+                }
+            }
             if let Ok(m) = Message::from_bytes(x) {
                 if m.is_encrypted() {
                     let _ = Message::from_bytes(x).map(|m| m.decrypt_with_password(&Password::from("pw-one")).map(|m| drain_message(m, 1)));
@@ -863,6 +880,19 @@ fn run_inner(tier: Tier, idx: u64) -> Outcome {
     stage_reset();
     let r = crate::engine::guarded(|| {
         if let Ok(m) = Message::from_bytes(&wrapped[..]) {
+            if layer == 0 {
+                // the same container read in streaming mode
+                if let Ok(ms) = Message::from_bytes(&wrapped[..]) {
+                    let ring = TheRing {
+                        session_keys: vec![PlainSessionKey::V3_4 { sym_alg: SymmetricKeyAlgorithm::AES128, key: sk.to_vec().into() }],
+                        decrypt_options: DecryptionOptions::new().set_seipdv1_read_mode(pgp::types::Seipdv1ReadMode::Streaming),
+                        ..Default::default()
+                    };
+                    if let Ok((m2, _)) = ms.decrypt_the_ring(ring, true) {
+                        drain_message(m2, 1);
+                    }
+                }
+            }
             let m = if m.is_encrypted() {
                 let key = if layer == 0 {
                     PlainSessionKey::V3_4 { sym_alg: SymmetricKeyAlgorithm::AES128, key: sk.to_vec().into() }
@@ -951,6 +981,118 @@ fn run_ecdh_pad(c: &EcdhPad) -> Outcome {
             format!("ECDH PKESK whose validly wrapped plaintext is {} octets ending in {:#04x} ({c:?}): panic at {loc}: {}", c.len, c.last, msg.chars().take(120).collect::<String>()),
         ),
     }
+}
+
+// ---- signature values of every MPI length behind a correct digest prefix
+
+#[derive(Clone, Debug)]
+struct SigLen {
+    key: KeyKind,
+    r_len: usize,
+    s_len: usize,
+}
+
+fn sig_len_cases(tier: Tier) -> &'static Vec<SigLen> {
+    static Q: std::sync::OnceLock<Vec<SigLen>> = std::sync::OnceLock::new();
+    static T: std::sync::OnceLock<Vec<SigLen>> = std::sync::OnceLock::new();
+    (if tier == Tier::Quick { &Q } else { &T }).get_or_init(|| {
+        let mut v = Vec::new();
+        for key in [KeyKind::Ed25519LegacyV4, KeyKind::EcdsaP256V4, KeyKind::EcdsaP384V4, KeyKind::EcdsaP521V4, KeyKind::EcdsaK256V4, KeyKind::EcdsaP256V6, KeyKind::Rsa2048V4] {
+            let max = match key {
+                KeyKind::EcdsaP384V4 => 52,
+                KeyKind::EcdsaP521V4 => 70,
+                KeyKind::Rsa2048V4 => 260,
+                _ => 36,
+            };
+            for r_len in 0..=max {
+                if key == KeyKind::Rsa2048V4 {
+                    if r_len < 250 && r_len > 4 && tier == Tier::Quick {
+                        continue;
+                    }
+                    v.push(SigLen { key, r_len, s_len: 0 });
+                    continue;
+                }
+                for s_len in 0..=max {
+                    // the quick tier: full cross product near the field size, the axes elsewhere
+                    let near = |x: usize| x + 3 >= max - 4 && x <= max;
+                    if tier == Tier::Quick && !(near(r_len) && near(s_len)) && !(r_len == max - 4 || s_len == max - 4 || r_len <= 1 || s_len <= 1) {
+                        continue;
+                    }
+                    v.push(SigLen { key, r_len, s_len });
+                }
+            }
+        }
+        v
+    })
+}
+
+fn run_sig_len(c: &SigLen) -> Outcome {
+    use crate::common::sigs;
+    let cert = common::cert(c.key, 1);
+    let pk = cert.primary_key.public_key();
+    let hash = match c.key {
+        KeyKind::EcdsaP384V4 => pgp::crypto::hash::HashAlgorithm::Sha384,
+        KeyKind::EcdsaP521V4 => pgp::crypto::hash::HashAlgorithm::Sha512,
+        _ => pgp::crypto::hash::HashAlgorithm::Sha256,
+    };
+    let v6 = c.key.is_v6();
+    let doc = b"document";
+    // a genuine signature gives the packet layout, the issuer subpackets and the digest prefix
+    let salt = vec![0x44u8; 16];
+    let mut hashed = sigs::raw_subpacket(2, false, &common::NOW.to_be_bytes());
+    let mut fp = vec![if v6 { 6u8 } else { 4 }];
+    fp.extend_from_slice(pk.fingerprint().as_bytes());
+    hashed.extend_from_slice(&sigs::raw_subpacket(33, false, &fp));
+    let Ok(genuine) = sigs::craft_signature(&cert.primary_key, if v6 { 6 } else { 4 }, 0, hash, &hashed, &[], &salt, &[&doc[..]]) else {
+        return Outcome::trivial("raw-signer-refuses");
+    };
+    let Ok(d) = crate::reference::codec::decode_packet(2, &genuine) else { return Outcome::trivial("reference cannot decode") };
+    let crate::reference::codec::Summary::Signature(si) = &d.summary else { return Outcome::trivial("not a signature") };
+    // replace the signature material by MPIs of the chosen lengths (top bit of the first octet set)
+    let mut body = genuine[..si.sig_material.0].to_vec();
+    let mpi = |n: usize, fill: u8| -> Vec<u8> {
+        let mut v = ((n * 8) as u16).to_be_bytes().to_vec();
+        v.extend((0..n).map(|i| if i == 0 { 0x80 | fill } else { fill.wrapping_add(i as u8) }));
+        v
+    };
+    body.extend_from_slice(&mpi(c.r_len, 0x21));
+    if c.key != KeyKind::Rsa2048V4 {
+        body.extend_from_slice(&mpi(c.s_len, 0x53));
+    }
+    stage_reset();
+    let r = crate::engine::guarded(|| {
+        if let Ok(sig) = dbg(sigs::sig_from_body(&body)) {
+            mark(0);
+            if sig.verify(pk, &doc[..]).is_ok() {
+                mark(5);
+            }
+            // and as an inline signature
+            let mut lit = vec![b'b', 0, 0, 0, 0, 0];
+            lit.extend_from_slice(doc);
+            let stream = [frame_min(2, &body), frame_min(11, &lit)].concat();
+            if let Ok(m) = Message::from_bytes(&stream[..]) {
+                drain_message_with(m, pk);
+            };
+        }
+    });
+    match r {
+        Ok(()) => Outcome::ok(stage_class()),
+        Err((loc, msg)) => Outcome::bad(
+            format!("C04:panic@{}:signature-mpi-lengths", crate::engine::loc_file(&loc)),
+            format!("{:?} signature with a correct digest prefix whose MPIs are {} and {} octets long: panic at {loc}: {}", c.key, c.r_len, c.s_len, msg.chars().take(120).collect::<String>()),
+        ),
+    }
+}
+
+fn drain_message_with(mut m: Message<'_>, pk: &dyn pgp::types::VerifyingKey) {
+    let mut buf = [0u8; 4096];
+    for _ in 0..10_000 {
+        match m.read(&mut buf) {
+            Ok(0) | Err(_) => break,
+            Ok(_) => {}
+        }
+    }
+    let _ = m.verify(pk);
 }
 
 // ---- hostile data under a text-mode signature
@@ -1364,6 +1506,7 @@ fn space_total(tier: Tier, space: &str) -> u64 {
         "secret_material" => sec_total(tier),
         "gnupg_aead_header" => gnupg_cases(tier).len() as u64,
         "ecdh_padding" => ecdh_pad_cases().len() as u64,
+        "signature_mpi_lengths" => sig_len_cases(tier).len() as u64,
         "text_signature_data" => text_data_cases(tier).len() as u64,
         _ => 0,
     }
@@ -1386,6 +1529,7 @@ fn case_json(tier: Tier, space: &str, idx: u64) -> Value {
         "secret_material" => json!({"index": idx, "case": sec_case(tier, idx).3}),
         "gnupg_aead_header" => json!({"index": idx, "case": format!("{:?}", gnupg_cases(tier)[idx as usize])}),
         "ecdh_padding" => json!({"index": idx, "case": format!("{:?}", ecdh_pad_cases()[idx as usize])}),
+        "signature_mpi_lengths" => json!({"index": idx, "case": format!("{:?}", sig_len_cases(tier)[idx as usize])}),
         "text_signature_data" => json!({"index": idx, "case": format!("{:?}", text_data_cases(tier)[idx as usize])}),
         _ => json!({"index": idx}),
     }
@@ -1411,6 +1555,7 @@ fn run_case(tier: Tier, space: &str, idx: u64) -> Outcome {
         "secret_material" => run_sec(tier, idx),
         "gnupg_aead_header" => run_gnupg(&gnupg_cases(tier)[idx as usize]),
         "ecdh_padding" => run_ecdh_pad(&ecdh_pad_cases()[idx as usize]),
+        "signature_mpi_lengths" => run_sig_len(&sig_len_cases(tier)[idx as usize]),
         "text_signature_data" => run_text_data(&text_data_cases(tier)[idx as usize]),
         _ => Outcome::trivial("unknown space"),
     }
@@ -1426,7 +1571,8 @@ pub fn worker(tier: Tier, space: &str, start: u64, end: u64) -> Option<Value> {
 
 pub fn check(ctx: &Ctx) {
     let tier = ctx.tier;
-    let spaces: [(&str, &str, u64); 11] = [
+    let spaces: [(&str, &str, u64); 12] = [
+        ("signature_mpi_lengths", "signatures with a CORRECT digest prefix and issuer (so that verification reaches the public-key code) whose signature MPIs have every length 0..36 (P-384: 52, P-521: 70) in all (r, s) pairs (quick: full cross product around the field size, the axes elsewhere) for EdDSA-legacy, ECDSA P-256 v4/v6, P-384, P-521, secp256k1, and RSA with 0..260 octets: Signature::verify and the inline message path", 2_000),
         ("ecdh_padding", "ECDH PKESK (P-256 v4/v6, Curve25519-legacy) made by the reference model (own ephemeral key, RFC 9580 11.5 KDF, RFC 3394 wrap) around an attacker-chosen plaintext: every length 8..48 (multiples of 8) x every final (padding) octet 0..255 x uniform / patterned fill, through DecryptionKey::decrypt v3 / v6", 1_000),
         ("text_signature_data", "attacker-chosen data under a text-mode signature (hashing precedes the signature check): every length 0..40 (thorough 0..600) and every length within 3 of each multiple of 512 up to 2048 (8704) x 8 line-ending patterns (trailing CR / CR LF, CR LF or LF on every 512 edge with a trailing CR, all CR, all LF, alternating, CR just before every edge) x carrier {detached verify, cleartext document, prefixed message}", 2_000),
         ("gnupg_aead_header", "LibrePGP / GnuPG OCB packet (tag 20, opt-in enabled) from the published test vector with its cipher x AEAD octets over all 256 x 256 pairs (quick: AEAD edge values), chunk octet 0..255, behind the vector's valid SKESK v5 (so that a genuine 16-octet session key meets every cipher octet) and with caller-supplied V5 session keys of every length 0..40", 10_000),
